@@ -84,6 +84,16 @@ Definition wit_collision : list cop := [cPut 1%N id_CamA 1%N; cPut 2%N id_Cam_A 
 Definition wit_reingest : list cop := [cPut 1%N id_CamA 1%N; cIngest false 1%N id_CamA (0%N, 2%N, 13%Z)].
 Definition crun tbl := run cobj cbytes (c_enc tbl) c_dec c_size c_path_of c_ext.
 
+(* the correspondence model IS the repaired model: holds only while the regenerated flag is true *)
+Lemma cstep_is_fixed : forall tbl, cstep tbl = cstep_fixed tbl.
+Proof. intro tbl. reflexivity. Qed.
+
+Lemma refused_noop_impl_p : forall tbl c s x s' e, cstep tbl c s x = (s', Refused e) -> s' = s.
+Proof.
+  intros tbl c s x s' e H. rewrite cstep_is_fixed in H.
+  exact (refused_noop_p cobj cbytes (c_enc tbl) c_dec c_size c_path_of c_ext c s x s' e H).
+Qed.
+
 Lemma c_codec : forall tbl f o, c_dec f (c_enc tbl f o) = Some o.
 Proof. intros. unfold c_dec, c_enc. cbn [fst snd]. rewrite N.eqb_refl. reflexivity. Qed.
 
@@ -105,8 +115,6 @@ Proof. exists [(0, 1, 7%Z); (0, 2, 7%Z)]%N, wit_cfg, wit_collision, 1%N. vm_comp
 
 (* WITHOUT the fix of commit 2da36a1 (model variant step_unfixed) the refused re-ingest is not a no-op: the stored
    artifact is gone afterwards *)
-Definition cstep_unfixed (tbl : list (N * N * Z)) := step_unfixed cobj cbytes (c_enc tbl) c_dec c_size c_path_of c_ext.
-
 Lemma refused_noop_refuted_without_fix_p :
   exists c s x s' e id o,
     cstep_unfixed wit_sizes c s x = (s', Refused e) /\ s' <> s /\ cget c s id = Got o /\ cget c s' id = Fail NotFound
